@@ -167,6 +167,24 @@ pub fn run(tier: &str, seed: u64, out: &mut Out) {
         }
     }
 
+    // long runs of openers through the iterators on one parser: every call hits
+    // the nesting limit, and the budget must come back each time
+    for kind in [0u64, 1, 2, 3, 6, 8] {
+        let text = pathological(kind, if tier == "quick" { 12_000 } else { 40_000 });
+        for (src, mode) in [(Src::Slice, 'v'), (Src::Io, 'd'), (Src::Str, 'n')] {
+            let cap = 400;
+            let case = format!("iter {} {} {} {} {}", src.name(), Ro::DEFAULT.code(), if mode == 'n' { 'v' } else { mode }, cap, bytes_code(&text));
+            out.oracle_checks += 1;
+            match iterate(src, Ro::DEFAULT, &text, mode, cap) {
+                Ok(items) => {
+                    out.count("long-opener-run:iterated");
+                    out.case(case, items.join(" ;; "), true)
+                }
+                Err(p) => out.fail("panic", format!("iterating over a run of {} openers (shape {}) panicked: {}", text.len(), kind, p), case, json!({"shape": kind})),
+            }
+        }
+    }
+
     // pathological shapes in a child process with a 2 MiB stack
     let deep_n = if tier == "quick" { 200_000 } else { 1_000_000 };
     let exe = std::env::current_exe().unwrap();
